@@ -6,6 +6,7 @@ from .. import AnalysisError
 from ..cfg import ALL_KINDS, NORMAL_KINDS, iter_own
 from ..guards import canon
 from ..lib import (
+    both_orders,
     always_followed_by,
     attr_stores,
     dominated_by,
@@ -254,7 +255,7 @@ def c01_3(ctx, r):
         conds = set()
         for n, k, c in path:
             if k in ("T", "F") and c is not None:
-                conds.add(norm(ctx, it, c, n, pol=(k == "T")))
+                conds |= both_orders([norm(ctx, it, c, n, pol=(k == "T"))])
         if not (("state is None", True) in conds or ("<Job.state> == state", True) in conds):
             bad = True
     ctx.counters["paths"] += npaths
